@@ -107,6 +107,55 @@ def erfc_sym(x):
     return erfc(x)
 
 
+_MUT = (dict, list, set, bytearray)
+PRISTINE = {}       # modname -> (names at import time, {name: deep copy of a mutable module-level container})
+PRISTINE_CLS = {}   # class -> {attr: deep copy of a mutable class-level container}
+
+
+def _snapshot_pristine():
+    """Module- and class-level mutable state of every pybads module as it is right after import, i.e. in a fresh process.
+    A Rebinder starts from a private copy of it, so one Rebinder = one process history (C07/C20: what an earlier
+    instance or run leaves behind in module globals, class attributes or mutable defaults is visible to later code of
+    the same Rebinder and to no other)."""
+    import copy
+    import importlib
+    import pkgutil
+    try:
+        pkg = importlib.import_module(PKG)
+    except Exception:
+        return
+    for m in pkgutil.walk_packages(pkg.__path__, PKG + "."):
+        if ".testing" in m.name or m.name.endswith(("conftest", "setup")) or ".test_" in m.name:
+            continue
+        try:
+            importlib.import_module(m.name)
+        except Exception:
+            pass
+    for modname, mod in list(sys.modules.items()):
+        if mod is None or not modname.startswith(PKG) or modname in PRISTINE:
+            continue
+        muts = {}
+        for name, v in list(vars(mod).items()):
+            if type(v) in _MUT and not name.startswith("__"):
+                try:
+                    muts[name] = copy.deepcopy(v)
+                except Exception:
+                    pass
+            if isinstance(v, type) and (v.__module__ or "").startswith(PKG) and v not in PRISTINE_CLS:
+                ca = {}
+                for k, a in vars(v).items():
+                    if type(a) in _MUT and not k.startswith("__"):
+                        try:
+                            ca[k] = copy.deepcopy(a)
+                        except Exception:
+                            pass
+                PRISTINE_CLS[v] = ca
+        PRISTINE[modname] = (set(vars(mod)), muts)
+
+
+_snapshot_pristine()
+
+
 class Rebinder:
     def __init__(self, concrete=False, stubs=None, shim_builtins=True):
         self.concrete = concrete
@@ -125,7 +174,15 @@ class Rebinder:
         mod = sys.modules[modname]
         g = dict(mod.__dict__)
         self.shadow[modname] = g
+        names0, muts0 = PRISTINE.get(modname, (None, {}))
+        import copy
         for name, v in list(g.items()):
+            if names0 is not None and name not in names0:
+                del g[name]          # written into the module by an earlier call in this process (e.g. exec'd parameters)
+                continue
+            if name in muts0 and type(v) in _MUT:
+                g[name] = copy.deepcopy(muts0[name])
+                continue
             if v is _np:
                 g[name] = npc if self.concrete else npx
             elif v is _np.random:
@@ -175,7 +232,11 @@ class Rebinder:
         closure = None
         if f.__closure__:
             closure = tuple(self._cell(c, owner, owner_cell) for c in f.__closure__)
-        nf = types.FunctionType(f.__code__, g, f.__name__, f.__defaults__, closure)
+        import copy
+        dflt = f.__defaults__
+        if dflt and any(type(d) in _MUT for d in dflt):
+            dflt = tuple(copy.deepcopy(d) if type(d) in _MUT else d for d in dflt)   # mutable defaults: private to this Rebinder
+        nf = types.FunctionType(f.__code__, g, f.__name__, dflt, closure)
         nf.__kwdefaults__ = f.__kwdefaults__
         nf.__qualname__ = f.__qualname__
         nf.__dict__.update({k: v for k, v in f.__dict__.items() if k != "__wrapped__"})
@@ -206,6 +267,9 @@ class Rebinder:
                 ns[k] = property(self.func(v.fget, c, owner_cell) if v.fget else None,
                                  self.func(v.fset, c, owner_cell) if v.fset else None,
                                  self.func(v.fdel, c, owner_cell) if v.fdel else None, v.__doc__)
+            elif type(v) in _MUT and not k.startswith("__"):
+                import copy
+                ns[k] = copy.deepcopy(PRISTINE_CLS.get(c, {}).get(k, v))
             else:
                 ns[k] = v
         ns.pop("__abstractmethods__", None)
